@@ -2818,6 +2818,43 @@ fn core_word_name(xs: &mut State) -> Xresult {
     xs.push_data(Cell::from(s))
 }
 
+#[cfg(any(kani, feature = "verif_hooks"))]
+pub mod verif_hooks {
+    pub fn relative_index(len: usize, index: isize) -> Option<usize> {
+        super::relative_index(len, index)
+    }
+    pub fn slicing_index(idx: isize, len: usize) -> usize {
+        super::slicing_index(idx, len)
+    }
+}
+
+#[cfg(any(kani, feature = "verif_hooks"))]
+impl State {
+    /// Debug rendering of the complete machine state (verification hook).
+    pub fn verif_dump(&self) -> String {
+        use std::fmt::Write;
+        let mut s = String::new();
+        let ds = self.ctx.ds_len.min(self.data_stack.len());
+        writeln!(s, "ip={}", self.ctx.ip).unwrap();
+        writeln!(s, "data_hidden={:?}", &self.data_stack[..ds]).unwrap();
+        writeln!(s, "data_visible={:?}", &self.data_stack[ds..]).unwrap();
+        writeln!(s, "return_stack={:?}", self.return_stack).unwrap();
+        writeln!(s, "loops={:?}", self.loops).unwrap();
+        writeln!(s, "special={:?}", self.special).unwrap();
+        writeln!(s, "heap={:?}", self.heap).unwrap();
+        writeln!(s, "mode={:?}", self.ctx.mode).unwrap();
+        writeln!(s, "ctx={:?}", self.ctx).unwrap();
+        writeln!(s, "nested={}", self.nested.len()).unwrap();
+        writeln!(s, "pending_flows={}", self.flow_stack.len()).unwrap();
+        writeln!(s, "pending_inputs={}", self.input.len()).unwrap();
+        writeln!(s, "dict_len={}", self.dict.len()).unwrap();
+        writeln!(s, "code_len={}", self.code.len()).unwrap();
+        writeln!(s, "debug_map_len={}", self.debug_map.len()).unwrap();
+        writeln!(s, "insn_meter={}", self.insn_meter).unwrap();
+        s
+    }
+}
+
 #[cfg(test)]
 mod tests {
     use super::*;
